@@ -16,7 +16,7 @@ RULE = ("precedence: the option table is READ FROM THE PARSER (every (subcommand
         "json=c} x {junk key absent/present} x value assignments (quick: all 6 permutations of three distinct values; thorough: "
         "all assignments over the option's alphabet) is run through the real main() in-process; a state = one lattice node, a "
         "transition = one main() run; observation = the effective Config at the point main() applies it, plus behaviour (output "
-        "bytes, address version byte, handler level, rpc arguments) for the base command, sha256, addr and rpc. Expected = "
+        "bytes, address version byte, handler level, rpc arguments) for the base command, sha256, addr, wif, pubkey and rpc. Expected = "
         "cli ?? (toml if the toml file exists else json).get(key) ?? default. conversion: EVERY byte string of length 0..2 x all "
         "9 (in,out) format pairs, all hex strings of length 0..4, all bit strings of length 0..12, with surrounding newlines, "
         "through read_bytes/write_bytes and through main().")
@@ -277,6 +277,20 @@ def chk_behaviour(case):
         exp = B58.check_encode(ver + payload)
         if obs["stdout"].strip() != exp:
             return [("C20/behaviour/addr/network", f"address {obs['stdout'][:40]!r}, expected {exp!r} for network {eff['network']} ({tag})")]
+    elif sub == "wif":
+        from vf.ref import base58_ref as B58
+        ver = b"\x80" if eff["network"] == "mainnet" else b"\xef"
+        exp = B58.check_encode(ver + payload)
+        if obs["stdout"].strip() != exp:
+            return [("C20/behaviour/wif/network", f"WIF {obs['stdout'][:60]!r}, expected {exp!r} for network {eff['network']} ({tag})")]
+    elif sub == "pubkey":
+        from vf.ref.ecref import SECP256K1 as S_
+        P = S_.mul(int.from_bytes(payload, "big"), S_.G)
+        pk = b"\x04" + P[0].to_bytes(32, "big") + P[1].to_bytes(32, "big")
+        exp = ref_convert_out(eff["output_format"], pk)
+        if obs["stdout"] != exp:
+            return [("C20/behaviour/pubkey/formats", f"stdout {obs['stdout'][:40]!r} != {exp[:40]!r}; effective in={eff['input_format']} "
+                     f"out={eff['output_format']}; ret={str(obs['ret'])[:60]} ({tag})")]
     elif sub == "rpc":
         if len(obs["rpc"]) != 1:
             return [("C20/behaviour/rpc/not-called", f"rpc_method calls: {obs['rpc']} ret={str(obs['ret'])[:80]} ({tag})")]
@@ -455,11 +469,13 @@ def run_job(job):
                     acc.check("prec", {"sub": sub, "dest": dest, "opt": None, "pos": pos[sub], **node}, chk_prec)
     elif part == "behaviour":
         data = filler(seed, "c20-data", 20)
+        key32 = bytes([1]) + filler(seed, "c20-key", 31)
         i = 0
         opts = {"input_format": "--input-format", "output_format": "--output-format", "network": "--network",
                 "rpc_url": "--rpc-url", "rpc_user": "--rpc-user", "rpc_password": "--rpc-password", "rpc_datadir": "--rpc-datadir"}
         plans = [(None, ["input_format", "output_format"], []), ("sha256", ["input_format", "output_format"], []),
-                 ("addr", ["network", "input_format"], []), ("rpc", ["rpc_url", "rpc_user", "rpc_password"], ["getblockcount", "1"])]
+                 ("addr", ["network", "input_format"], []), ("rpc", ["rpc_url", "rpc_user", "rpc_password"], ["getblockcount", "1"]),
+                 ("wif", ["network", "input_format"], []), ("pubkey", ["input_format", "output_format"], [])]
         for sub, dests, posargs in plans:
             per = []
             for d in dests:
@@ -472,7 +488,7 @@ def run_job(job):
                     if i % nsh != sh:
                         continue
                     case = {"sub": sub, "layers": dict(zip(dests, combo)), "toml_exists": te, "json_exists": je, "opts": opts,
-                            "pos": posargs, "data": data.hex()}
+                            "pos": posargs, "data": (key32 if sub in ("wif", "pubkey") else data).hex()}
                     acc.evaluations += 1
                     acc.executions += 1
                     acc.states += 1
@@ -536,9 +552,9 @@ def run_job(job):
 
 LEVEL_TEXT = ("The configuration lattice is finite and is enumerated completely: for every (subcommand, option) pair found in the "
               "real argument parser, every combination of layer presence (command line / TOML / JSON / junk key) and value "
-              "assignment is executed through the real main() and the effective configuration (and, for four commands, the visible "
+              "assignment is executed through the real main() and the effective configuration (and, for six commands, the visible "
               "behaviour) is compared with the precedence rule. Conversion is decided on every byte string of length <= 2 for all "
               "nine format pairs and on all short hex / bit strings.")
 LEVEL_NOTE = ("main() is run in-process; for most subcommands the run is cut right after the options take effect (the effective "
-              "Config is the observation), behaviour is checked end-to-end for the base command, sha256, addr and rpc.")
+              "Config is the observation), behaviour is checked end-to-end for the base command, sha256, addr, wif, pubkey and rpc.")
 TECHNIQUE = "exhaustive enumeration of the finite configuration lattice through the real main() + bounded-exhaustive conversion round trips"
